@@ -77,6 +77,13 @@ def run(facts, cg):
                     if not any(g in dom.get(rbi, ()) for g in good):
                         finding('R-RESUME', b.q, 'no-advance:' + f_, 'a delivered body fragment does not update `%s` by its length: a retry would re-request bytes already handed out' % f_)
             instances.append({'rule': 'R-RESUME', 'function': b.q, 'progress_fields': sorted(fields), 'delivery_sites': len(rets)})
+    # the header is `bytes=<first>-<last>` with an inclusive last byte: <last> = (<first> + <size>) - 1 over the same <first>
+    for (b, bi, t), shape in zip(range_sites, range_terms):
+        ok = len(shape) == 2 and isinstance(shape[1], tuple) and len(shape[1]) == 3 and shape[1][0] == 'Sub' and shape[1][2] == 1 and \
+            isinstance(shape[1][1], tuple) and len(shape[1][1]) == 3 and shape[1][1][0] == 'Add' and shape[0] in (shape[1][1][1], shape[1][1][2]) and \
+            shape[1][1][1] != shape[1][1][2]
+        if not ok:
+            finding('R-RESUME', b.q, 'range-bounds', 'the Range header at %s is not `bytes=first-(first+size-1)` (inclusive end): %s' % (t['loc'], shape))
     if len(range_sites) < 2:
         finding('R-RESUME', '-', 'floor', 'expected 2 Range header constructions, found %d (cannot decide)' % len(range_sites))
     elif len({tuple(map(str, x)) for x in range_terms}) != 1:
@@ -295,6 +302,49 @@ def run(facts, cg):
             instances.append({'rule': 'R-RUNS(adjacency)', 'function': b.q, 'comparisons': [show(simplify(T.of_rvalue(b, st['rv'], 0)))[:120] for _, st in cmps]})
             if not good:
                 finding('R-RUNS', b.q, 'adjacency-predicate', 'adjacency is not `prev.offset + prev.size == next.offset`')
+    # one request per run: the request in flight is given up only when the count of chunks it still covers reaches zero, and a
+    # new one is built only when none is in flight
+    n_drop = 0
+    creq = [f_ for k_, v_ in facts.fields_by_role('bitar::archive_reader::http_reader::ChunkReader').items() for f_ in v_]
+    for b in facts.bodies.values():
+        if not b.id.startswith('bitar::archive_reader::http_reader::') or b.generated:
+            continue
+        news = [(bi, t) for bi, t in b.calls() if 'q' in t['callee'] and callee_q(t).endswith('HttpRangeRequest::new')]
+        if not news or (facts.original.get(b.raw.get('parent') or '') is not None and facts.original[b.raw['parent']].q.endswith('ArchiveReader>::read_at')):
+            continue
+        dom = b.dominators()
+        usz = set(facts.fields_by_role('bitar::archive_reader::http_reader::ChunkReader').get('usize') or [])
+        # the field that holds the request: the one a value built from HttpRangeRequest::new is stored into
+        holder = None
+        for bi in b.live:
+            for st in b.blocks[bi]['stmts']:
+                if st['k'] == 'assign' and st['pl']['p'] and st['pl']['p'][-1]['k'] == 'field' and st['pl']['p'][-1].get('n') in creq:
+                    vt = simplify(T.of_rvalue(b, st['rv'], 0))
+                    if has_call(vt, 'HttpRangeRequest::new'):
+                        holder = st['pl']['p'][-1].get('n')
+        if holder is None:
+            continue
+        for bi in b.live:
+            for st in b.blocks[bi]['stmts']:
+                if st['k'] == 'assign' and st['pl']['p'] and st['pl']['p'][-1]['k'] == 'field' and st['pl']['p'][-1].get('n') == holder:
+                    vt = simplify(T.of_rvalue(b, st['rv'], 0))
+                    if has_call(vt, 'HttpRangeRequest::new'):
+                        continue
+                    if not (isinstance(vt, tuple) and vt[0] == 'agg' and not vt[3]):
+                        continue            # not a "no request" value
+                    n_drop += 1
+                    guarded = False
+                    for cbi in b.live:
+                        sw = b.blocks[cbi]['term']
+                        if sw['k'] == 'switch' and cbi in dom.get(bi, ()):
+                            ct = simplify(T.of_operand(b, sw['op']))
+                            if isinstance(ct, tuple) and ct[0] == 'binop' and ct[1] in ('Eq', 'Ne', 'Le', 'Lt', 'Gt', 'Ge') and \
+                                    any(has_field(ct, f_) for f_ in usz) and any(n_ == ('const', 0) or n_ == ('const', 1) for n_ in walk(ct)):
+                                guarded = True
+                    instances.append({'rule': 'R-RUNS(one-request-per-run)', 'function': b.q, 'request_field': holder, 'dropped_at': st['loc'], 'guarded_by_run_counter': guarded})
+                    if not guarded:
+                        finding('R-RUNS', b.q, 'request-dropped-early', 'the range request in flight is given up at %s without the count of chunks it still covers having '
+                                'reached zero: adjacent chunks are no longer fetched with one request' % st['loc'])
     if n_req < 1 or n_adj < 1:
         finding('R-RUNS', '-', 'floor', 'the construction of the range request / the adjacency predicate of the http chunk reader were not found (cannot decide)')
     return instances, findings
